@@ -268,6 +268,17 @@ func (st *state) step(s Step) {
 		// a standard-library call on live values (its result becomes a live
 		// value, so that values with library-made types feed later calls);
 		// the type-only prediction is asked for as well
+		if s.Op == "unknownof" || s.Op == "nullof" {
+			// a placeholder of the SAME type object as a live value
+			v := st.pick(s.A)
+			st.log = append(st.log, fmt.Sprintf("%s #%d", s.Op, mod(s.A, len(st.lives))))
+			if s.Op == "unknownof" {
+				st.push(cty.UnknownVal(v.Type()), s.Op)
+			} else {
+				st.push(cty.NullVal(v.Type()), s.Op)
+			}
+			return
+		}
 		f, ok := histFns[s.Op]
 		if !ok {
 			return
@@ -677,8 +688,9 @@ var histFnNames = func() []string {
 		ns = append(ns, "concat")
 	}
 	for i := 0; i < 4; i++ {
-		ns = append(ns, "merge", "slice")
+		ns = append(ns, "merge", "slice", "unknownof")
 	}
+	ns = append(ns, "nullof")
 	return ns
 }()
 
